@@ -5,7 +5,13 @@ COMMON_NOTE = ("Trusted: Lean 4.33 kernel; axioms limited to propext/Quot.sound/
                "deterministic scheduler + SimPool delegates + virtual clock; the rendering of the property as theorems in "
                "lean/MoreExec/Props. Correspondence covers the explored schedules only; the universal claim is about the model.")
 
-PROPS = {}
+PROPS = {
+    "C09": dict(
+        technique="Lean 4 invariant proofs over a transition-system model of TimeoutExecutor (never-early, exactly-once, sleep invariant / no-overshoot); kernel K3 regenerated from timeout.py; replay correspondence of the real code under a deterministic scheduler",
+        level_text="Machine-checked theorems (Lean 4 kernel) over all runs of an executable model of TimeoutExecutor: every cancel attempt is strictly after the job's own deadline, no future gets two attempts, and no idle jump of virtual time passes the deadline of a job while the timeout thread is parked (sleep invariant). The partition/wait-time kernel is regenerated from timeout.py on every run; the hand-written model is tied to the code by validating event logs of the real TimeoutExecutor (random/PCT line-level schedules, virtual clock) against the model's executable step function, with property monitors as failing-input search.",
+        design_ref="DESIGN.md section 6 C09, Appendix A.7",
+        level_note="Modelled, not verified: the MapFuture internals of the returned futures (abstracted to done/linked/hasCb bits; full protocol is C02), f_timeout's shared weakly-referenced executor (lifecycle is C12), OS scheduling latency (virtual clock)."),
+}
 
 _PENDING = "machinery for this property is not built yet in this revision (see DESIGN.md section 9 build order)"
 NOT_APPLICABLE = {("C%02d" % i): _PENDING for i in range(1, 21)}
